@@ -190,13 +190,15 @@ theorem C18_left_stops_routing :
 
 /-- **The model's phase order is the source's call order** (regenerated on every run by
 `harness/cmd/facts/facts_shutdown.go` from `server/server.go`): the calls `Server.Shutdown`
-makes on its receiver, in source order, are exactly the phases of `shutdownActions`; in
+makes on its receiver, in source order, are, as far as the model depends on their order (`orderRelevant`), exactly the phases of
+`shutdownActions`; in
 particular the upstream server is shut down - endpoints start being withdrawn, listeners are
 sent away - **before** the node stops accepting proxy traffic and before `Leave`, and `Leave`
 runs before the gossip sockets are closed.  `upstream.Server.Shutdown` closes the listener
 and then cancels the handlers' context.  A reordering of these calls breaks this theorem. -/
 theorem C18_facts_shutdown_order :
-    Facts.shutdownCalls = some ((shutdownActions []).filterMap Action.callName) ∧
+    Facts.shutdownCalls.map (·.filter orderRelevant) =
+      some (((shutdownActions []).filterMap Action.callName).filter orderRelevant) ∧
     (∀ l, Facts.shutdownCalls = some l →
       callPrecedes "shutdownUpstreamServer" "shutdownProxyServer" l = true ∧
       callPrecedes "shutdownUpstreamServer" "gossiper.Leave" l = true ∧
@@ -207,15 +209,14 @@ theorem C18_facts_shutdown_order :
     Facts.upstreamShutdownCalls = some ["httpServer.Shutdown", "cancel"] := by
   refine ⟨by decide, ?_, by decide, by decide⟩
   intro l hl
-  have : l = ["stopJWKSRefresher", "adminServer.SetReady", "shutdownUpstreamServer",
-      "shutdownProxyServer", "gossiper.Leave", "gossiper.Close", "shutdownAdminServer", "wg.Wait"] := by
-    have h : Facts.shutdownCalls = some ["stopJWKSRefresher", "adminServer.SetReady",
-      "shutdownUpstreamServer", "shutdownProxyServer", "gossiper.Leave", "gossiper.Close",
-      "shutdownAdminServer", "wg.Wait"] := by decide
-    rw [h] at hl
-    exact (Option.some.inj hl).symm
-  subst this
-  decide
+  have h : (Facts.shutdownCalls.all fun l =>
+      callPrecedes "shutdownUpstreamServer" "shutdownProxyServer" l &&
+      callPrecedes "shutdownUpstreamServer" "gossiper.Leave" l &&
+      callPrecedes "shutdownProxyServer" "gossiper.Leave" l &&
+      callPrecedes "gossiper.Leave" "gossiper.Close" l &&
+      callPrecedes "adminServer.SetReady" "shutdownUpstreamServer" l) = true := by decide
+  rw [hl] at h
+  simpa [Bool.and_eq_true, and_assoc] using h
 
 /-- **The race is real in the model too** (as on the code): there is a shutdown schedule in
 which, at the moment `Leave` pushes `LocalDelta` to a peer, the node's own state is flagged
